@@ -15,7 +15,8 @@
 (*           ListTypes; in a one-matcher list the value has up to          *)
 (*           ListValLen characters over ListSigma, in a two-matcher list   *)
 (*           up to 1 -- the smallest scope in which a value can spell      *)
-(*           `";a="`, i.e. imitate the boundary between two matchers       *)
+(*           `";a="`, i.e. imitate the boundary between two matchers;      *)
+(*           one block, both compression schemes                           *)
 (*   S   blocks x SeriesIds                                                *)
 (*   MC  names x types x values over ConvSigma (Sigma plus a digit)        *)
 (***************************************************************************)
@@ -39,10 +40,10 @@ Str(S, lo, hi) == UNION { [1..n -> S] : n \in lo..hi }
 Matchers(S, nameLen, valLen, types) == [name : Str(S, 1, nameLen), type : types, value : Str(S, 0, valLen)]
 
 PItemsOver(S) == [kind : {"P"}, blk : Blocks, name : Str(S, 1, MaxLen), value : Str(S, 0, MaxLen), comp : Comps]
-EP1ItemsOver(S) == [kind : {"EP"}, blk : {CHOOSE b \in Blocks : TRUE}, comp : Comps,
+EP1ItemsOver(S) == [kind : {"EP"}, blk : {CHOOSE b \in Blocks : TRUE}, comp : {<<>>},
                     ms : {<<>>} \cup { <<m>> : m \in Matchers(S, MaxLen, MaxLen, Types) }]
 ListMatchers(valLen) == [name : {<<"a">>}, type : ListTypes, value : Str(ListSigma, 0, valLen)]
-EP2Items == [kind : {"EP"}, blk : {CHOOSE b \in Blocks : TRUE}, comp : {<<>>},
+EP2Items == [kind : {"EP"}, blk : {CHOOSE b \in Blocks : TRUE}, comp : Comps,
              ms : { <<m>> : m \in ListMatchers(ListValLen) }
                   \cup { <<m1, m2>> : m1 \in ListMatchers(1), m2 \in ListMatchers(1) }]
 SItems == [kind : {"S"}, blk : Blocks, id : { Dec(n) : n \in SeriesIds }]
